@@ -3,6 +3,7 @@ package main
 import (
 	"fmt"
 	"go/token"
+	"go/types"
 
 	"golang.org/x/tools/go/ssa"
 )
@@ -10,12 +11,13 @@ import (
 const throttlePkg = modulePath + "/plugin/action/throttle"
 
 func init() {
-	explain("C16", "Thin static necessary conditions of the throttle contract (in-memory backend only), decided exhaustively over the source: every access to an in-memory limiter's buckets and distributions is inside its lock()/unlock() region (wrapper summaries); in isAllowed the count is added before it is read back, in the same region and for the same bucket/distribution index, and the verdict is value <= limit; the limiter map is read and written only under its mutex; the map key is built from both the rule part and the throttle key; in the plugin the first matching rule's verdict is returned from inside the rule loop and no rule means 'allowed'. "+
+	explain("C16", "Thin static necessary conditions of the throttle contract (in-memory backend only), decided exhaustively over the source: every access to an in-memory limiter's buckets and distributions is inside its lock()/unlock() region (wrapper summaries); in isAllowed the count is added before it is read back, in the same region and for the same bucket/distribution index, and the verdict is value <= limit; the limiter map is read and written only under its mutex; the map key is built from both the rule part and the throttle key; in the plugin the first matching rule's verdict is returned from inside the rule loop and no rule means 'allowed'; the ring of per-distribution rows is only ever replaced by a rotation of itself, its rows are freshly allocated, never copied over one another and never handed out (each interval keeps its own counters). "+
 		"NOT decided: every counting clause of the statement (counts per bucket over time sequences, distribution shares, bucket arithmetic).",
 		"go/types, go/ssa and x/tools call resolution are correct", "lock identity is by access path", "the redis backend is out of scope, as in the property's quantifier")
 	reg("C16", "C16.R1", "E3", "in-memory limiter state only inside lock()/unlock(); add before get, same indices; verdict value <= limit", 8, ruleLimiterRegion)
 	reg("C16", "C16.R2", "E3+E6", "limiter map under its mutex; key built from rule part and throttle key", 4, ruleLimiterMap)
 	reg("C16", "C16.R3", "E2", "first matching rule decides; no rule means allowed", 1, ruleFirstMatchingRule)
+	reg("C16", "C16.R4", "E1", "a ring of reference rows is only rotated: rows never duplicated, copied over or handed out", 1, ruleRingRows)
 }
 
 func isRedisFn(fn *ssa.Function) bool {
@@ -393,6 +395,142 @@ func (c *Ctx) startOnly(fn *ssa.Function, depth int) bool {
 			continue
 		}
 		if !c.startOnly(caller, depth-1) {
+			return false
+		}
+	}
+	return true
+}
+
+// ruleRingRows: a bucket ring whose buckets are themselves slices (one counter per
+// distribution value) holds references. The ring may be rotated, but a row must never be
+// present twice (two intervals would then share one set of counters) and must never leave
+// the ring as a mutable reference.
+func ruleRingRows(c *Ctx, r *Rule) {
+	iface := c.Named("plugin/action/throttle", "buckets")
+	if iface == nil {
+		r.Unresolved("throttle.buckets interface")
+		return
+	}
+	for _, t := range c.Implementers(iface) {
+		n := namedOf(deref(t))
+		if n == nil {
+			continue
+		}
+		st, ok := n.Underlying().(*types.Struct)
+		if !ok {
+			continue
+		}
+		for i := 0; i < st.NumFields(); i++ {
+			fld := st.Field(i)
+			ring, isSl := fld.Type().Underlying().(*types.Slice)
+			if !isSl {
+				continue
+			}
+			if _, rowIsSlice := ring.Elem().Underlying().(*types.Slice); !rowIsSlice {
+				continue
+			}
+			r.Inst(1)
+			tn, fnm := n.Obj().Name(), fld.Name()
+			isRing := func(v ssa.Value) bool {
+				for d := 0; d < 4; d++ {
+					if sl, ok := v.(*ssa.Slice); ok {
+						v = sl.X
+						continue
+					}
+					break
+				}
+				return isLoadOfField(v, throttlePkg, tn, fnm)
+			}
+			// (a) stores to the ring field
+			for _, a := range c.fieldAccesses(throttlePkg, tn, fnm) {
+				if !a.write {
+					continue
+				}
+				key := fmt.Sprintf("%s.%s|%s|ring-store", tn, fnm, c.fnName(a.fn))
+				if isFreshAlloc(a.base) || isMake(a.val) {
+					r.Ob(true, key, a.in.Pos(), "ring allocated in the constructor")
+					continue
+				}
+				okRot := false
+				if call, ok := isBuiltinCall(instrOf(a.val), "append"); ok && len(call.Call.Args) == 2 {
+					d, dOK := call.Call.Args[0].(*ssa.Slice)
+					s, sOK := call.Call.Args[1].(*ssa.Slice)
+					if dOK && sOK && isRing(d.X) && isRing(s.X) && d.Low != nil && d.High == nil && s.Low == nil && s.High != nil && lin(d.Low).equal(lin(s.High)) {
+						okRot = true
+					}
+				}
+				r.Ob(okRot, key, a.in.Pos(), "the ring is replaced only by a rotation of itself, append(ring[k:], ring[:k]...): every row stays in the ring exactly once")
+			}
+			// (b) element stores, (c) copy into the ring, (d) rows returned
+			for _, fn := range c.ModFuncs {
+				if c.pkgOf(fn) != "plugin/action/throttle" {
+					continue
+				}
+				nEl, nCp, nRet := 0, 0, 0
+				for _, b := range fn.Blocks {
+					for _, in := range b.Instrs {
+						switch x := in.(type) {
+						case *ssa.Store:
+							ia, ok := x.Addr.(*ssa.IndexAddr)
+							if !ok || !isRing(ia.X) {
+								continue
+							}
+							nEl++
+							fresh := isMake(x.Val)
+							if call, isCall := x.Val.(*ssa.Call); isCall && call.Call.StaticCallee() != nil {
+								fresh = returnsFreshMake(call.Call.StaticCallee())
+							}
+							r.Ob(fresh, fmt.Sprintf("%s.%s|%s|row-store#%d", tn, fnm, c.fnName(fn), nEl), x.Pos(), "a row stored into the ring is freshly allocated (never a row that is already in the ring)")
+						case *ssa.Call:
+							if _, isCopy := isBuiltinCall(x, "copy"); isCopy && isRing(x.Call.Args[0]) {
+								nCp++
+								r.Ob(false, fmt.Sprintf("%s.%s|%s|copy-into-ring#%d", tn, fnm, c.fnName(fn), nCp), x.Pos(), "copy() into a ring of reference rows duplicates row references: two intervals then share one set of counters")
+							}
+						case *ssa.Return:
+							for _, res := range retResults(x) {
+								if u, ok := res.(*ssa.UnOp); ok && u.Op == token.MUL {
+									if ia, isIA := u.X.(*ssa.IndexAddr); isIA && isRing(ia.X) {
+										nRet++
+										r.Ob(false, fmt.Sprintf("%s.%s|%s|row-returned#%d", tn, fnm, c.fnName(fn), nRet), x.Pos(), "a row of the ring is handed out as a mutable reference")
+									}
+								}
+							}
+						}
+					}
+				}
+			}
+		}
+	}
+}
+
+func isMake(v ssa.Value) bool {
+	switch v.(type) {
+	case *ssa.MakeSlice:
+		return true
+	}
+	return false
+}
+
+// returnsFreshMake: every return of f is a make (through value-preserving conversions).
+func returnsFreshMake(f *ssa.Function) bool {
+	rets := returnsOf(f)
+	if len(rets) == 0 {
+		return false
+	}
+	for _, ret := range rets {
+		res := retResults(ret)
+		if len(res) != 1 {
+			return false
+		}
+		v := res[0]
+		for {
+			if ct, ok := v.(*ssa.ChangeType); ok {
+				v = ct.X
+				continue
+			}
+			break
+		}
+		if !isMake(v) {
 			return false
 		}
 	}
